@@ -211,10 +211,22 @@ class FileResolver:
         resolved = path.parent.resolve() / path.name
         ignored = False
         for directory, spec in self._get_gitignore_chain(path.parent, walk_root):
-            relative = resolved.relative_to(directory).as_posix() + ("/" if is_dir else "")
-            matched = spec.check_file(relative).include
-            if matched is not None:
-                ignored = matched
+            relative = resolved.relative_to(directory).as_posix()
+            parent = relative.rpartition("/")[0]
+            for pattern in spec.patterns:
+                if pattern.include is None:
+                    continue
+                # Git matches a pattern against this path only, never "by descent" from a
+                # matching parent directory (ignored directories are not entered at all, and
+                # a negated directory pattern does not re-include what is inside). `dir/**`
+                # matches what is inside `dir` but not `dir` itself.
+                inside_only = str(getattr(pattern, "pattern", "")).rstrip().endswith("/**")
+                slash = "" if inside_only else "/"
+                if pattern.match_file(relative + (slash if is_dir else "")) is None:
+                    continue
+                if not inside_only and parent and pattern.match_file(parent + "/") is not None:
+                    continue
+                ignored = bool(pattern.include)
         return ignored
 
     def _get_gitignore_chain(
